@@ -15,8 +15,10 @@ package discovery
 // MaxOffset handed to the SQL server: for a segment followed by another segment of the same topic-partition with a
 // positive base offset, MaxOffset is set to exactly next.BaseOffset - 1 (the tightest bound that keeps every
 // offset below the next segment's base: offsets are contiguous and segments do not overlap, C02); otherwise the
-// field keeps the value it had before the iteration.
+// field keeps the value it had before the iteration. The S3 listing before the sort is not explored (start point
+// after sort.Slice: the loop is proved from an arbitrary list).
 //@ func (l *s3Lister) ListCompleted
+//@   at Slice#1 after start
 //@   ghost gprev *int64 = nil
 //@   at findNextSegment#1 before set gprev = segments[rangeindex].MaxOffset
 //@   loop 4 invariant -1 <= rangeindex && rangeindex < len(segments)
